@@ -93,5 +93,3 @@ func cmdRun(args []string) {
 	}
 }
 
-func cmdCheck(args []string) int  { fmt.Println("not yet"); return 2 }
-func cmdReplay(args []string) int { fmt.Println("not yet"); return 2 }
